@@ -38,8 +38,8 @@ T = {
  "C10b": ("C10", "an exit with empty metadata on the wire", "C10: certcodec monitors 'wire exit differs from the bridge event: metadata (expected none)' and 'exit leaf recomputed from the wire message differs'; aggsender wire monitors"),
  "C13a": ("C13", "a certificate rebuilt from the Agglayer header at start-up (crash between submit and store, or lost database), then the next certificate", "C13: aggsender monitor 'certificate … starts at block …, expected …' on the first certificate after a restart + correspondence on the rebuilt row"),
  "C13b": ("C13", "a statement fault on the INSERT of SaveLastSentCertificate when a row of that height exists", "C13: aggsender monitor 'a failed SaveLastSentCertificate changed the stored records' (SQL-trigger faults on each statement of the save)"),
- "C06a": ("C06", "restart of a subscriber that tracked blocks in an earlier run", None),
- "C06b": ("C06", "notification ordering around the removal of tracked blocks", None),
+ "C06a": ("C06", ">= 2 subscribers whose tracked block numbers interleave, and a restart (tracked headers regrouped wrongly at reload)", "C06: reorgsync correspondence on the tracked lists after restart + monitor 'rewound to block …, the first replaced block it had processed is …'"),
+ "C06b": ("C06", "the node is stopped while a syncer is rewinding (rewind not committed), then restarted", "C06: reorgsync op `detect!` (stop during the rewind, restart): correspondence on the tracked lists + monitors 'did not rewind' / convergence at the end of the world"),
  "C09a": ("C09", "an older finalized L1 block whose last info update has a higher log position than the newest finalized leaf, and a claim against a leaf newer than the one picked", "C09: aggsender monitor 'L1 info leaf index … is not below the certificate's leaf count' / proof does not verify (several leaves per L1 block with increasing positions)"),
  "C09b": ("C09", "a rollup-origin claim with leaf index >= 2", "C09: aggsender monitor 'the exit leaf does not hash with proof_leaf_ler to the stated local exit root' + claimdata correspondence; also C08 (tree scenario uses tree.CalculateRoot)"),
  "C12a": ("C12", "a mainnet deposit newer than the first info leaf (the search then keeps the non-covering first leaf as its answer)", "C12: bridgeapi monitor '/l1-info-tree-index returned leaf … but that leaf's mainnet exit root covers only …' + correspondence with the modelled binary search"),
